@@ -30,7 +30,34 @@ def sig_of(m):
     return "%s:%s:%s" % (m["kind"], cons, frame)
 
 
-def run_file(ctx, drv, mf, nlines, env):
+def run_parallel(ctx, drv, mf, nlines, env, parts=8):
+    """The consumers of one message run in one goroutine (so that a hang is attributable); messages are spread over processes."""
+    from concurrent.futures import ThreadPoolExecutor
+    with open(mf) as f:
+        lines = f.readlines()
+    if len(lines) < 4 * parts:
+        return run_file(ctx, drv, mf, nlines, env)
+    chunks = [lines[i::parts] for i in range(parts)]
+    files = []
+    for i, ch in enumerate(chunks):
+        pf = ctx.path("msgs-part%d.ndjson" % i)
+        with open(pf, "w") as f:
+            f.writelines(ch)
+        files.append((pf, len(ch), "p%d" % i))
+    with ThreadPoolExecutor(max_workers=parts) as ex:
+        results = list(ex.map(lambda a: run_file(ctx, drv, a[0], a[1], env, a[2]), files))
+    faults, summ = [], {"summary": True, "messages": 0, "stats": {}}
+    for f2, s2 in results:
+        faults += f2
+        if not s2:
+            return faults, None
+        summ["messages"] += s2.get("messages", 0)
+        for k, v in s2.get("stats", {}).items():
+            summ["stats"][k] = summ["stats"].get(k, 0) + v
+    return faults, summ
+
+
+def run_file(ctx, drv, mf, nlines, env, sfx=""):
     """Run the driver over a message file; if it dies, bisect to the killing message."""
     rc, out, err = gobuild.run_driver(ctx, drv, ["c01", mf], timeout=3400, env=env)
     faults, summ = [], None
@@ -43,7 +70,29 @@ def run_file(ctx, drv, mf, nlines, env):
                 faults.append(m)
     if rc == 0 and summ:
         return faults, summ
-    if rc == 3:  # watchdog
+    if rc == 3 and summ:  # watchdog: one consumer run did not finish; confirm it alone, then go on behind that message
+        hangs = [m for m in faults if m["kind"] == "hang"]
+        faults = [m for m in faults if m["kind"] != "hang"]
+        for m in hangs:
+            if confirm_hang(ctx, drv, m):
+                faults.append(m)
+            else:
+                ctx.note("a %s run on message %s exceeded the watchdog once but finished when re-run alone (machine load): not reported"
+                         % (m["consumer"], m.get("line")))
+        with open(mf) as f:
+            lines = f.readlines()
+        rest = lines[summ["messages"]:]
+        if rest:
+            part = ctx.path("rest%s-%d.ndjson" % (sfx, len(rest)))
+            with open(part, "w") as f:
+                f.writelines(rest)
+            f2, s2 = run_file(ctx, drv, part, len(rest), env, sfx)
+            faults += f2
+            if s2:
+                for k, v in s2.get("stats", {}).items():
+                    summ["stats"][k] = summ["stats"].get(k, 0) + v
+                summ["messages"] += s2.get("messages", 0)
+        summ.pop("aborted", None)
         return faults, summ
     # driver died (fatal error that recover() cannot catch, e.g. stack overflow): bisect
     with open(mf) as f:
@@ -52,7 +101,7 @@ def run_file(ctx, drv, mf, nlines, env):
     ctx.log("driver died rc=%d; bisecting %d messages: %s" % (rc, len(lines), err[-300:]))
     while hi - lo > 1:
         mid = (lo + hi) // 2
-        part = ctx.path("bisect.ndjson")
+        part = ctx.path("bisect%s.ndjson" % sfx)
         with open(part, "w") as f:
             f.writelines(lines[lo:mid])
         rc2, _, _ = gobuild.run_driver(ctx, drv, ["c01", part], timeout=3400, env=env)
@@ -60,7 +109,7 @@ def run_file(ctx, drv, mf, nlines, env):
             hi = mid
         else:
             lo = mid
-    part = ctx.path("bisect.ndjson")
+    part = ctx.path("bisect%s.ndjson" % sfx)
     with open(part, "w") as f:
         f.writelines(lines[lo:hi])
     rc3, out3, err3 = gobuild.run_driver(ctx, drv, ["c01", part], timeout=3400, env=env)
@@ -71,6 +120,15 @@ def run_file(ctx, drv, mf, nlines, env):
     faults.append({"line": lo + 1, "mode": "?", "variant": "?", "consumer": "process", "kind": "fatal",
                    "detail": head + " | " + _frame(err3), "segs": rec["segs"]})
     return faults, {"summary": True, "messages": lo, "stats": {}, "aborted": "fatal"}
+
+
+def confirm_hang(ctx, drv, m):
+    """A watchdog report is timing based: re-run that very presentation alone with a longer limit."""
+    one = ctx.path("hang-confirm-%s.ndjson" % m.get("line"))
+    with open(one, "w") as f:
+        f.write(json.dumps({"segs": m["segs"], "val": {"t": "err", "r": ""}, "clean": False, "nfill": 0}) + "\n")
+    rc, out, err = gobuild.run_driver(ctx, drv, ["c01", one], timeout=3400, env={"VERIF_C01_MUT": "0", "VERIF_C01_HANG": "300"})
+    return rc == 3 and '"kind":"hang"' in out
 
 
 def _frame(err):
@@ -86,7 +144,7 @@ def run(ctx):
     n, states, trans = c03.generate(ctx, sd, QUICK if ctx.quick else THOROUGH, mf)
     drv = gobuild.build(ctx, "encread", also=["vwalk"])
     env = {"VERIF_C01_MUT": "2" if ctx.quick else "8"}
-    faults, summ = run_file(ctx, drv, mf, n, env)
+    faults, summ = run_parallel(ctx, drv, mf, n, env)
     for m in faults:
         ctx.violation(sig_of(m), "%s in %s (%s, %s): %s segs=%s" % (
             m["kind"], m["consumer"], m.get("mode"), m.get("variant"), m.get("detail", "")[:600], json.dumps(m.get("segs"))), m)
